@@ -80,11 +80,14 @@ var Tables = []string{"companies", "offices", "users", "accounts", "pets", "toys
 var ddl = []string{
 	"CREATE TABLE companies (id integer primary key autoincrement, name text)",
 	"CREATE TABLE offices (id integer primary key autoincrement, company_id integer, city text)",
-	"CREATE TABLE users (id integer primary key autoincrement, name text, age integer, updated_at datetime, company_id integer)",
+	"CREATE TABLE users (id integer primary key autoincrement, name text CHECK (name <> 'INVALID'), age integer, updated_at datetime, company_id integer)",
 	"CREATE TABLE accounts (id integer primary key autoincrement, user_id integer, number text)",
-	"CREATE TABLE pets (id integer primary key autoincrement, user_id integer, name text)",
-	"CREATE TABLE toys (id integer primary key autoincrement, name text, owner_id integer, owner_type text)",
-	"CREATE TABLE languages (code text primary key, name text)",
+	"CREATE TABLE pets (id integer primary key autoincrement, user_id integer, name text CHECK (name <> 'INVALID'))",
+	// only names starting with uniq- must be unique: real UNIQUE failures without
+	// touching the upserts of the other operations
+	"CREATE UNIQUE INDEX uq_pets_name ON pets(name) WHERE name LIKE 'uniq-%'",
+	"CREATE TABLE toys (id integer primary key autoincrement, name text CHECK (name <> 'INVALID'), owner_id integer, owner_type text)",
+	"CREATE TABLE languages (code text primary key, name text CHECK (name <> 'INVALID'))",
 	"CREATE TABLE user_languages (user_id integer, language_code text, primary key (user_id, language_code))",
 	"CREATE TABLE audits (id integer primary key autoincrement, msg text)",
 }
